@@ -363,7 +363,7 @@ func quote(s string) string { return fmt.Sprintf("%q", s) }
 var illegalInsert = []string{"@", "#", "$", "~", "?", "é", "\x00", "`", "\""}
 
 func init() {
-	textRule := "all character strings of length <= 3 (quick) / <= 4 (thorough) over 33 scanner character-class representatives (letters, digits, _, ', space, newline, every punctuation the scanner knows, /, \\, an illegal ASCII character, a non-ASCII rune, the byte 0, a control character, DEL), all strings of length 4 / 5 over a 16-character sub-alphabet that exercises the multi-character tokens and comments, all token strings of length <= 3 / <= 4 over 57 lexemes (one per terminal, synonyms included), for every corpus/example file every prefix, every single-character deletion and every insertion of 19 legal/illegal fragments at every token boundary, all 4096 alias/recursion/mode graphs of three type definitions and all pairs of type definitions with depth-1 bodies as texts, 14 nesting/length families (brackets, right-nested types and terms, parameter/branch/argument lists, many declarations) at every depth 0..140 (quick) / 0..300 (thorough), and two-declaration programs with every comment skeleton of <= 3 pieces (space-separated and adjacent) over {/*, */, *, /, x, //, newline} between the declarations and of <= 2 pieces after them"
+	textRule := "all character strings of length <= 3 (quick) / <= 4 (thorough) over 33 scanner character-class representatives (letters, digits, _, ', space, newline, every punctuation the scanner knows, /, \\, an illegal ASCII character, a non-ASCII rune, the byte 0, a control character, DEL), all strings of length 4 / 5 over a 16-character sub-alphabet that exercises the multi-character tokens and comments, all token strings of length <= 3 / <= 4 over 57 lexemes (one per terminal, synonyms included), for every corpus/example file every prefix, every single-character deletion and every insertion of 19 legal/illegal fragments at every token boundary, all 9261 alias/recursion/mode graphs of three type definitions and all pairs of type definitions with depth-1 bodies as texts, 14 nesting/length families (brackets, right-nested types and terms, parameter/branch/argument lists, many declarations) at every depth 0..140 (quick) / 0..300 (thorough), and two-declaration programs with every comment skeleton of <= 3 pieces (space-separated and adjacent) over {/*, */, *, /, x, //, newline} between the declarations and of <= 2 pieces after them"
 	harness.Register(&harness.Check{
 		ID: "C11", Level: "exploration",
 		Rule:        textRule + "; each text is parsed by the real (fuel-instrumented) parser under the scheduler: it must return (not panic, not block on the error channel), within a fuel bound linear in len(text) (plus 12 growth families - many declarations, long terms, comment lines, long comments, blank lines, exec lists, process lists, case branches, choice labels, parameter/argument/provider-name lists - parsed at n and 2n lines, n = 3000 quick / 8000 thorough: bytes allocated and fuel may at most triple when the length doubles), with a program or a non-empty error; distinct_nontrivial = distinct texts with at least 2 characters",
